@@ -120,14 +120,20 @@ func (r *run) conclude(ld *loaded, files []harnessFile, results []*interp.Harnes
 			case c.vio.Kind == "frame":
 				// write-set violations have no native oracle other than the harness's own snapshot assertion
 				inconclusive = append(inconclusive, fmt.Sprintf("%s: frame violation at %s did not fail natively", c.Harness, c.vio.Pos))
+			case c.vio.Finding != "" && usesRand(c.Inputs):
+				// a model of an already listed finding that needs one specific math/rand draw cannot be forced natively;
+				// the finding is confirmed (or not) through its other models
 			default:
 				disagreements++
-				inconclusive = append(inconclusive, fmt.Sprintf("%s: solver model for %q at %s does not reproduce against the real build (encoder or stub mismatch)", c.Harness, c.vio.Msg, c.vio.Pos))
+				inconclusive = append(inconclusive, fmt.Sprintf("%s: solver model for %q at %s does not reproduce against the real build (encoder or stub mismatch) (inputs %s)", c.Harness, c.vio.Msg, c.vio.Pos, compactModel(c.Inputs)))
 			}
 			continue
 		}
 		if n == nil || r.noReplay {
 			continue
+		}
+		if usesRand(c.Inputs) {
+			continue // the outcome of math/rand cannot be forced natively; such paths are not used for translation validation
 		}
 		if why := compareSample(c.sample, n); why != "" {
 			disagreements++
@@ -170,6 +176,7 @@ func (r *run) conclude(ld *loaded, files []harnessFile, results []*interp.Harnes
 		exit = 2
 	}
 	sort.Strings(inconclusive)
+	inconclusive = dedupe(inconclusive)
 	for k, m := range inconclusive {
 		if k < 15 {
 			fmt.Printf("INCONCLUSIVE property=%s reason=%s\n", r.prop, m)
@@ -179,6 +186,15 @@ func (r *run) conclude(ld *loaded, files []harnessFile, results []*interp.Harnes
 		r.writeEvidence(ld, results, cases, validated, disagreements, len(confirmedNew), knownIDs, inconclusive, loadTime, replayWall)
 	}
 	return exit
+}
+
+func usesRand(m map[string]any) bool {
+	for k := range m {
+		if strings.HasPrefix(k, "rand#") || strings.HasPrefix(k, "randf#") {
+			return true
+		}
+	}
+	return false
 }
 
 func compactModel(m map[string]any) string {
@@ -389,4 +405,23 @@ func replaySaved(dir, repo, verif string) int {
 	}
 	fmt.Printf("INCONCLUSIVE property=%s reason=no native result\n%s\n", meta.Property, tail(string(out), 20))
 	return 2
+}
+
+func dedupe(in []string) []string {
+	var out []string
+	seen := map[string]bool{}
+	for _, s := range in {
+		key := s
+		if i := strings.Index(s, " (inputs "); i > 0 {
+			key = s[:i]
+		}
+		if len(key) > 160 {
+			key = key[:160]
+		}
+		if !seen[key] {
+			seen[key] = true
+			out = append(out, s)
+		}
+	}
+	return out
 }
